@@ -1335,6 +1335,28 @@ func genStore(c *Ctx, profile string) {
 				return
 			}
 			ops = wrapCrashes(c, ops, crashPts)
+			if pts := crashPts.Points["CreateDataset"]; len(pts) > 0 && c.Rng.Intn(3) == 0 {
+				// a dataset whose creation died half way, then everything a client may do with that name: create it again,
+				// rename it, delete it, write to it — nothing of that may fail for good or take the hub down
+				fresh := fmt.Sprintf("h%d", c.Rng.Intn(100))
+				ops = append(ops, M{"op": "crash", "point": pts[c.Rng.Intn(len(pts))], "hit": 1, "inner": M{"op": "createDs", "name": fresh}})
+				for k := 0; k < 2+c.Rng.Intn(3); k++ {
+					switch c.Rng.Intn(5) {
+					case 0:
+						ops = append(ops, M{"op": "createDs", "name": fresh})
+					case 1:
+						ops = append(ops, M{"op": "renameDs", "name": fresh, "to": fresh + "r"})
+					case 2:
+						ops = append(ops, M{"op": "deleteDs", "name": fresh})
+					case 3:
+						ops = append(ops, M{"op": "store", "ds": fresh, "ents": g.batch()})
+					default:
+						ops = append(ops, M{"op": "deleteDs", "name": fresh + "r"})
+					}
+				}
+				ops = append(ops, M{"op": "q", "q": "list", "ds": fresh, "pages": []int{0}}, M{"op": "q", "q": "list", "ds": fresh + "r", "pages": []int{0}},
+					M{"op": "q", "q": "list", "ds": g.dss[0], "pages": []int{0}})
+			}
 			for _, op := range ops {
 				if gets(op, "q") == "changes" {
 					op["rank"] = true
